@@ -1,11 +1,12 @@
 ---------------------------- MODULE MC_PathContain ----------------------------
-(* Stage (A) for C11.  Four kinds of runs (see the .cfg files):                                     *)
-(*   MC_PathContain            as coded, posix, every name of <= 4 components, one entry per run:   *)
-(*                             the escaping (name, option) pairs are EXACTLY EscapesAsCoded         *)
-(*   MC_PathContain_guarded    intended guard, same space: written is always below out             *)
-(*   MC_PathContain_multi      as coded, two entries of <= 2 components sharing one file system    *)
-(*                             (file-vs-directory conflicts, aborts): escapes only by characterised *)
-(*   MC_PathContain_multi_guarded, MC_PathContain_win, MC_PathContain_win_guarded                   *)
+(* Stage (A) for C11 (see the .cfg files):                                                           *)
+(*   MC_PathContain_guarded[_q]        the code as written (Guard = TRUE), every name of <= 4 (3)     *)
+(*                                     components, one entry per run: every touched path is below out *)
+(*   MC_PathContain_multi_guarded[_q]  two entries sharing one file system (conflicts, aborts)        *)
+(*   MC_PathContain[_q]                the deviation BeginUnguarded enabled: the escaping (name,      *)
+(*                                     option) pairs are EXACTLY EscapesUnguarded                      *)
+(*   MC_PathContain_refuted            the deviation against `Contained`: TLC must find the violation  *)
+(*   MC_PathContain_multi, _win, _win_guarded   multi-entry deviation; windows Prefix flavour          *)
 EXTENDS PathContain
 CONSTANTS MaxComps, MaxEntries, MCForms
 
@@ -13,9 +14,9 @@ Opts == [preserve : BOOLEAN, explicit : BOOLEAN, chain : {FALSE}, form : MCForms
 
 Init == \E k \in 1..MaxEntries : \E names \in [1..k -> CompSeqs(MaxComps)] : \E opt \in Opts : InitWith(names, opt)
 
-\* the list TLC is asked for: which names escape under which option, as coded
-EscapingPreserve == {cs \in CompSeqs(MaxComps) : EscapesAsCoded(cs, TRUE, TRUE)}
-EscapingFlatten  == {cs \in CompSeqs(MaxComps) : EscapesAsCoded(cs, FALSE, TRUE)}
+\* the list TLC is asked for: which names escape under which option in the unguarded deviation
+EscapingPreserve == {cs \in CompSeqs(MaxComps) : EscapesUnguarded(cs, TRUE, TRUE)}
+EscapingFlatten  == {cs \in CompSeqs(MaxComps) : EscapesUnguarded(cs, FALSE, TRUE)}
 ASSUME PrintT(<<"ESCAPING", Cardinality(EscapingPreserve), "of", Cardinality(CompSeqs(MaxComps)),
                 "with preserve;", Cardinality(EscapingFlatten), "without">>)
 \* the informal rule of DESIGN.md: preserve /\ (leading separator \/ a `..`) is necessary ...
